@@ -164,6 +164,15 @@ theorem krylov_exp_raises_iff :
     | true => simp [hc]
     | false => simp [hc]
 
+/-- The PUBLIC `krylov_exp(op, v, exp_tolerance, norm_tolerance, is_hermitian, max_krylov_dim)` is the
+implementation run with the caller's tolerances *under their own names*: it returns iff the run
+with `exp_tolerance` gating `err <` and `norm_tolerance` gating `n2 <` (see `flag_honest`) converged. -/
+theorem public_krylov_exp_uses_callers_tolerances (et nt : R) (herm : Bool) (md : Nat) (x : V) :
+    krylovExpPublic O mexp v et nt herm md = .ok x ↔
+      ∃ r, expImpl O mexp { isHermitian := herm, expTol := et, normTol := nt, maxDim := md } v = .ok r ∧
+        r.converged = true ∧ x = r.result :=
+  krylov_exp_returns_iff O mexp _ v x
+
 end Honest
 
 /-! ### (ii) exact arithmetic in an inner-product space -/
